@@ -171,6 +171,17 @@ CLAIMED["C18"] = (
     "label write-back (scripted classifier: one label per molecule in molecule order, nothing else changes) are numeric / "
     "implementation oracles, not theorems.",
     "regenerated anchors + Coq decision-logic theorems + in-Coq correspondence; numeric oracle for the SVD")
+CLAIMED["C20"] = (
+    "PARTIAL. Theorems (Coq): for every tiling of an axis into blocks (every chunking) and every overlap depth, the core test of "
+    "_pick_in_chunk_wrapped (translated: depth recovered from the block shape, half-open cell [start-1/2, start+size-1/2)) "
+    "assigns every position of the image to exactly one block (no duplicates, no losses); the reported coordinate local + start "
+    "- depth is the true global coordinate; nm = px * scale; picker depths ceil(2 sigma), matcher offset (shape+1)/2. Tie: those "
+    "expressions are regenerated from source; a scripted picker (reports the planted integer markers it sees in its block) is run "
+    "through pick_molecules over random chunkings x depths x scales, the observed block layout is validated as a tiling and the "
+    "reported positions are compared with the model inside Coq; the depth dask actually applied is checked against the requested "
+    "per-axis depth. Blob detection with LoG/DoG (5 chunkings, 3 dtypes) and rotated-template matching are numeric oracles; "
+    "the matcher's chunk-border behaviour is a known finding.",
+    "regenerated anchors + Coq tiling theorem + scripted-picker correspondence; numeric oracle for detection")
 NOT_YET = "machinery for this property is not built yet in this revision (see DESIGN.md §6 for the planned model)"
 
 def main():
